@@ -74,14 +74,15 @@ MUTANTS = [
     ("c07-repeat-value-stored-before-learning-filter", EVS, "\tshapedValue := value\n", "\tshapedValue := value\n\td.lastAnalogValue[ie.Source.Name][ie.Event.Code] = shapedValue\n", ["C07"]),
     ("c20-id-of-first-discovered-handler", "internal/pkg/input/device.go", "\t\tsort.SliceStable(dis, func(i, j int) bool {", "\t\tsort.SliceStable(append([]DeviceInfo{}, dis...), func(i, j int) bool {", ["C20"]),
     ("c13-panic-swallowed-by-held-pair", EVS, "\t\t\tif action == config.Panic || !d.checkDoubleActions() {", "\t\t\tif !d.checkDoubleActions() {", ["C13"]),
-    ("c19-watcher-errors-not-read", "internal/pkg/midi/device/config/monitor.go", "\t\t\tfor err := range watcher.Errors {", "\t\t\tfor err := range make(chan error) {", ["C19"]),
+    ("c19-watcher-errors-not-read", "internal/pkg/midi/device/config/monitor.go", "\t\t\tcase err, ok := <-watcher.Errors:", "\t\t\tcase err, ok := <-make(chan error):", ["C19"]),
+    ("c19-overflow-only-logged", "internal/pkg/midi/device/config/monitor.go", "\t\t\t\tif errors.Is(err, fsnotify.ErrEventOverflow) {", "\t\t\t\tif false && errors.Is(err, fsnotify.ErrEventOverflow) {", ["C19"]),
     ("c18-changed-factory-file-rewritten-in-place", "cmd/hidi/config.go", "\t\tif err := os.Remove(path); err != nil {", "\t\tif err := error(nil); err != nil {", ["C18"]),
     ("c16-led-frame-sent-under-the-event-mutex", "internal/pkg/midi/device/open_rgb.go", "\t\td.eventProcessMutex.Unlock()\n\n\t\tserverCall(func() { err = c.UpdateLEDs(index, ledArray) })", "\t\tserverCall(func() { err = c.UpdateLEDs(index, ledArray) })\n\t\td.eventProcessMutex.Unlock()", ["C16"]),
     ("c17-watchdog-closes-waiting-goroutine", "internal/pkg/midi/device/open_rgb.go", "\t\t\t\tif started != 0 && time.Since(time.Unix(0, started)) > time.Millisecond*500 {", "\t\t\t\tif started >= 0 {", ["C17"]),
     ("c01-repeat-filter-survives-mapping-switch", DEV, "\tfor identifier := range d.lastAnalogValue {", "\tfor identifier := range map[string]float64{} {", ["C01"]),
     ("c06-deadzone-at-center-on-signed-axes", EVS, "\tif analog.DeadzoneAtCenter && !canBeNegative {", "\tif analog.DeadzoneAtCenter {", ["C06", "C07", "C08"]),
     ("c04-semitone-wraps-at-8-bits", DEV, "\td.semitone++\n", "\td.semitone = int(int8(d.semitone + 1))\n", ["C04"]),
-    ("c17-reverse-mapping-modulo-256", "internal/pkg/midi/device/open_rgb.go", "\t\t\tbase := int(noteAndChannel[0]) - offset\n\t\t\tif base < 0 || base > 127 {", "\t\t\tbase := int(noteAndChannel[0]) - offset\n\t\t\tif false {", ["C17"]),
+    ("c17-reverse-mapping-modulo-256", "internal/pkg/midi/device/open_rgb.go", "\t\t\tbase := int(note) - offset\n\t\t\tif base < 0 || base > 127 {", "\t\t\tbase := int(note) - offset\n\t\t\tif false {", ["C17"]),
     ("c06-shared-controller-zeroed", EVS, "\t\toneController := analog.CC == analog.CCNeg && channel == channelNeg", "\t\toneController := false && analog.CC == analog.CCNeg && channel == channelNeg", ["C06"]),
     ("c08-tracker-by-code-only", EVS, "identifier := fmt.Sprintf(\"%s/%s/%d\", ie.Source.Name, ie.Source.DeviceInfo.Event(), ie.Event.Code)", "identifier := fmt.Sprintf(\"%d\", ie.Event.Code)", ["C08"]),
     ("c08-thresholds-swapped", EVS, "\t\tcase value > -0.49 && value < 0.49:\n\t\t\td.AnalogNoteOff(identifier, ie)", "\t\tcase value > -0.3 && value < 0.3:\n\t\t\td.AnalogNoteOff(identifier, ie)", ["C08"]),
